@@ -49,6 +49,12 @@ func (p *FloatingIPPlugin) Bind(args *schedulerapi.ExtenderBindingArgs) error {
 		// see https://github.com/kubernetes/kubernetes/pull/60332
 		return fmt.Errorf("pod which doesn't want floatingip have been sent to plugin")
 	}
+	if args.PodUID != "" && pod.UID != args.PodUID {
+		// the cached pod is another incarnation of the same name (informer cache and scheduler out of sync),
+		// binding with its uid would record the wrong owner of the ip
+		return fmt.Errorf("pod %s in cache has uid %s while binding uid %s, waiting for cache to sync",
+			util.Join(args.PodName, args.PodNamespace), pod.UID, args.PodUID)
+	}
 	defer p.lockPod(pod.Name, pod.Namespace)()
 	keyObj, err := util.FormatKey(pod)
 	if err != nil {
